@@ -241,6 +241,8 @@ def main(argv=None):
                         disabled_triggers.append(ent["trigger"])
                 witness_info.append({"id": ent["id"], "status": "open", "reproduced": rep["sig"] in sigs})
             else:  # fixed: plain regression case, suppresses nothing
+                # ('also' names observations of the same case that belong to another, open, finding of the property)
+                sigs = [s_ for s_ in sigs if s_ not in ent.get("also", [])]
                 if sigs:
                     p = write_replay(pid, sigs[0], rep["case"], f"regression of fixed finding {ent['id']}")
                     violations.append(p)
